@@ -45,7 +45,10 @@ def array_support(func):
                 vals.append(iterator(v, *args[1:], **kwargs))
 
             if isinstance(args[0], np.ndarray):
-                vals = np.array(vals)
+                _vals = np.array(vals)
+                if _vals.dtype.kind == 'f' and len(vals) > 0 and isinstance(vals[0], int):
+                    _vals = np.array(vals, dtype=object)    # python integers of 64 bits or more must not become float
+                vals = _vals
             return vals
         else:
             return func(*args, **kwargs)
@@ -54,6 +57,7 @@ def array_support(func):
 #%%
 @array_support
 def twos_complement_repr(val, nbits):
+    val = int(val)
     if val < 0:
         val = (1 << nbits) + val
     else:
@@ -389,7 +393,7 @@ def min_pow2(x, n_frac=0):
 def binary_invert(x, n_word=None):
     if n_word is None:
         n_word = bits_len(x)
-    return int((1 << n_word) - 1 - x)
+    return (1 << n_word) - 1 - int(x)
 
 @array_support
 def binary_and(x, y, n_word=None):
